@@ -125,6 +125,7 @@ func main() {
 		fmt.Fprintln(os.Stderr, "unknown property", *prop, "have", strings.Join(h.PropertyIDs(), ","))
 		os.Exit(3)
 	}
+	hangs := 0
 	for i := *from; i < *to; i++ {
 		var c h.Case
 		if *phase == "race" {
@@ -139,7 +140,13 @@ func main() {
 			fmt.Println(string(b))
 			continue
 		}
-		runCase(p, c, *doShrink, *sampleEvery > 0 && i%*sampleEvery == 0)
+		if runCase(p, c, *doShrink, *sampleEvery > 0 && i%*sampleEvery == 0) == "hang" {
+			// every hang costs a full watchdog period and leaves stuck goroutines behind: after three
+			// of them the rest of the batch would tell nothing new (a violating tree only)
+			if hangs++; hangs >= 3 {
+				break
+			}
+		}
 	}
 	if *printCase {
 		return
@@ -147,7 +154,7 @@ func main() {
 	emit(event{Ev: "done", I: *to})
 }
 
-func runCase(p h.Property, c h.Case, shrink, sample bool) {
+func runCase(p h.Property, c h.Case, shrink, sample bool) (firstRule string) {
 	emit(event{Ev: "begin", I: c.Index, Query: c.Query, Hash: c.Hash()})
 	t0 := time.Now()
 	o := p.Check(c)
@@ -155,7 +162,8 @@ func runCase(p h.Property, c h.Case, shrink, sample bool) {
 	for _, v := range o.Violations {
 		cc := c
 		e := event{Ev: "violation", I: c.Index, Rule: v.Rule, Detail: v.Detail, Case: &cc, Query: c.Query}
-		if shrink {
+		firstRule = v.Rule
+		if shrink && v.Rule != "hang" {
 			if s, d, ok := h.Shrink(p, c, v.Rule); ok {
 				e.Shrunk = &s
 				e.Detail = d
@@ -174,4 +182,5 @@ func runCase(p h.Property, c h.Case, shrink, sample bool) {
 		e.Case = &cc
 	}
 	emit(e)
+	return firstRule
 }
